@@ -219,9 +219,9 @@ class DirectObjectAccess:
         return tuple(self._create_access_path(cls) for cls in self._obj.__mro__[1:])
 
     def py__getitem__all_values(self):
-        if isinstance(self._obj, dict):
+        if type(self._obj) is dict:
             return [self._create_access_path(v) for v in self._obj.values()]
-        if isinstance(self._obj, (list, tuple)):
+        if type(self._obj) in (list, tuple):
             return [self._create_access_path(v) for v in self._obj]
 
         if self.is_instance():
